@@ -56,6 +56,16 @@ func genCrash(c *Ctx) error {
 		{"journal-shrink-TRUNCATE", journal("TRUNCATE", shrink, 0, 0)},
 		{"journal-modify-PERSIST", journal("PERSIST", modify, 0, 0)},
 		{"journal-spill-DELETE", journal("DELETE", many(6), 3, 0)},
+		// a transaction that rewrites pages it later cuts off (vacuum): the spill puts their new
+		// content and page 1 with the smaller size into the file while the journal is still hot
+		{"journal-shrink-spill-DELETE", journal("DELETE", func(p *pager) txShape {
+			n := len(p.img)
+			return txShape{newN: n - 2, pages: map[int]bool{1: true, 2: true, n - 1: true, n: true}, commit: true}
+		}, 3, 0)},
+		{"journal-shrink-spill-rollback", journal("TRUNCATE", func(p *pager) txShape {
+			n := len(p.img)
+			return txShape{newN: n - 2, pages: map[int]bool{1: true, 2: true, n - 1: true, n: true}, commit: true}
+		}, 3, 2)},
 		{"journal-rollback-after-spill", journal("DELETE", many(6), 3, 2)},
 		{"journal-rollback-early", journal("TRUNCATE", modify, 0, 1)},
 		{"wal-tx", func(p *pager, do func(string) string) { p.walTx(p.randomShape(3), false, true, true) }},
@@ -142,6 +152,12 @@ func genCrash(c *Ctx) error {
 				continue
 			}
 			first := p.randomShape(5)
+			if strings.Contains(sh.name, "shrink-spill") {
+				first.newN = 8
+				for i := 1; i <= 8; i++ {
+					first.pages[i] = true
+				}
+			}
 			if strings.Contains(sh.name, "aligned") {
 				first.newN = 80
 				for i := 1; i <= 80; i++ {
